@@ -136,6 +136,86 @@ def corruptions(p, frame, rng, n):
     return out
 
 
+def field_flips(p, params, rng, per_field):
+    """Well-formed frames that say something else: the FIRST _build_packet call of encode(**params) is recorded and replayed with one
+    bit of one transmitted field flipped - a named field (constants, checksums and parameters alike; toggles are left alone) or one
+    symbol of a positional `.timings` list.  Covers every engine class (Manchester, middle timings, serial), where a substitution at
+    a position of the duration list is not a symbol substitution."""
+    from pyIRDecoder import protocol_base
+    cls = p['cls']
+    orig = protocol_base.IrProtocolBase.__dict__['_build_packet']
+    calls = []
+
+    def rec(c, *args, **kwargs):
+        calls.append((c, args, kwargs))
+        return orig.__func__(c, *args, **kwargs)
+    protocol_base.IrProtocolBase._build_packet = classmethod(rec)
+    try:
+        code = cls().encode(**params)
+    except Exception:  # noqa
+        code = None
+    finally:
+        protocol_base.IrProtocolBase._build_packet = orig
+    out = []
+    if code is None or not calls:
+        return out
+    try:
+        code.repeat_timer.cancel()
+    except Exception:  # noqa
+        pass
+    c, args, kwargs = calls[0]
+    try:
+        base = list(orig.__func__(c, *args, **kwargs))
+    except Exception:  # noqa
+        return out
+    if base != list(code.normalized_rlc[0]):
+        return out              # the first frame is not (only) this packet
+    table = [list(b) for b in p['bursts'] if isinstance(b, list)]
+    # positional items: lists of [mark, space] symbols
+    for ai, arg in enumerate(args):
+        if not (isinstance(arg, list) and arg and all(isinstance(x, list) and len(x) == 2 for x in arg)):
+            continue
+        idx = list(range(len(arg))) if len(arg) <= per_field else sorted(set([0, len(arg) - 1] + rng.sample(range(len(arg)), per_field - 2)))
+        for k in idx:
+            for sym in table:
+                if sym != list(arg[k]):
+                    a2 = list(args)
+                    a2[ai] = [list(x) for x in arg[:k]] + [list(sym)] + [list(x) for x in arg[k + 1:]]
+                    try:
+                        g = list(orig.__func__(c, *a2, **kwargs))
+                    except Exception:  # noqa
+                        continue
+                    if g != base:
+                        out.append(('fieldflip', 'item%d' % ai, g))
+                    break
+    # named fields
+    for nm, v in kwargs.items():
+        un = nm.upper()
+        if un in ('T', 'T1', 'T2') or un.startswith('TOGGLE'):
+            continue            # a toggle bit is not part of the key: either value is a frame of the same key
+        w = None
+        for n2, start, stop in p['parameters']:
+            if n2 == nm:
+                w = stop - start + 1
+        if w is None:
+            continue
+        try:
+            val = int(v)
+        except Exception:  # noqa
+            continue
+        bits = list(range(w)) if w <= per_field else sorted(set([0, w - 1] + rng.sample(range(w), per_field - 2)))
+        for b in bits:
+            k2 = dict(kwargs)
+            try:
+                k2[nm] = type(v)(val ^ (1 << b), w, v._timings, v.encoding) if hasattr(v, '_timings') else val ^ (1 << b)
+                g = list(orig.__func__(c, *args, **k2))
+            except Exception:  # noqa
+                continue
+            if g != base:
+                out.append(('fieldflip', nm, g))
+    return out
+
+
 def field_at(p, frame, pos):
     """name of the parameter whose bits the data symbol at list position `pos` carries (pair tables), for the signature"""
     nli = len(p['lead_in'])
@@ -160,7 +240,13 @@ def search(ctx, protos, per, nsub):
             if c is None or len(c.normalized_rlc) < 1:
                 continue
             f = list(c.normalized_rlc[0])
-            for kind, pos, g in corruptions(p, f, rng, nsub):
+            flips = []
+            with engine.class_guard(p['cls']):
+                try:
+                    flips = field_flips(p, a, rng, 4 if nsub <= 6 else 16)
+                except Exception:  # noqa
+                    flips = []
+            for kind, pos, g in corruptions(p, f, rng, nsub) + flips:
                 ctx.count_eval(key=(name, kind, pos, tuple(g[:8]), len(g)))
                 inst = p['cls']()
                 with engine.class_guard(p['cls']):
@@ -177,7 +263,7 @@ def search(ctx, protos, per, nsub):
                     ctx.passed(name, dict(kind=kind))
                     continue
                 hits[name] = True
-                fld = field_at(p, f, pos) if kind == 'substitute' else kind
+                fld = field_at(p, f, pos) if kind == 'substitute' else (str(pos) if kind == 'fieldflip' else kind)
                 ctx.report(name, 'corrupted frame decoded as parameters that do not encode it', dict(kind=kind, sig=kind + ':' + fld),
                            dict(protocol=name, params=a, corruption=kind, position=pos, field=fld, frame=g, why=r))
             # the same on a decoder that has just decoded the intact frame (a key is held): a corrupted frame must not come back as
